@@ -154,9 +154,9 @@ func init() {
 	I["(time.Duration).Seconds"] = func(c *icall) ([]*State, bool) {
 		d := c.args[0].(IntV)
 		if d.C {
-			c.set(FloatV{float64(d.N) / 1e9})
+			c.set(FloatV{F: float64(d.N) / 1e9})
 		} else {
-			c.set(FloatV{0})
+			c.set(FloatV{Ns: d.T})
 		}
 		return nil, false
 	}
